@@ -16,6 +16,10 @@ package combinator
 //@ ghost depth(l RollbackLexer) int
 //@ ghost saved(l RollbackLexer, i int) int
 //@ ghost total(p Parser) bool
+// The current token's span and error flag as the lexer reports them (they change with the position).
+//@ ghost curFrom(l RollbackLexer) int
+//@ ghost curTo(l RollbackLexer) int
+//@ ghost curErr(l RollbackLexer) bool
 //@ pred linv(l RollbackLexer) bool := l != nil && depth(l) >= 0 && -1 <= pos(l) && pos(l) <= cached(l) - 1
 //@     && (forall i :: 0 <= i && i < depth(l) ==> -1 <= saved(l, i) && saved(l, i) <= cached(l) - 1)
 //@ pred savedKept(l RollbackLexer, n int) bool := forall i :: 0 <= i && i < n ==> saved(l, i) == old(saved(l, i))
@@ -23,7 +27,7 @@ package combinator
 //@ type RollbackLexer.Next [C13,C06]
 //@   params self
 //@   requires linv(self)
-//@   modifies pos(self), cached(self)
+//@   modifies pos(self), cached(self), curFrom(self), curTo(self), curErr(self)
 //@   ensures[advance] result ==> pos(self) == old(pos(self)) + 1
 //@   ensures[stay]    !result ==> pos(self) == old(pos(self))
 //@   ensures[inv]     cached(self) >= old(cached(self)) && linv(self)
@@ -31,12 +35,15 @@ package combinator
 //@ type RollbackLexer.Err [C13,C06] pure
 //@   params self
 //@   requires linv(self) && pos(self) >= 0
+//@   ensures[flag] (result != nil) == curErr(self)
 //@ type RollbackLexer.From [C13,C06] pure
 //@   params self
 //@   requires linv(self) && pos(self) >= 0
+//@   ensures[cur] result == curFrom(self)
 //@ type RollbackLexer.To [C13,C06] pure
 //@   params self
 //@   requires linv(self) && pos(self) >= 0
+//@   ensures[cur] result == curTo(self)
 //@ type RollbackLexer.Token [C13,C06] pure
 //@   params self
 //@   requires linv(self) && pos(self) >= 0
@@ -53,7 +60,7 @@ package combinator
 //@ type RollbackLexer.Rollback [C13]
 //@   params self
 //@   requires linv(self) && depth(self) >= 1
-//@   modifies depth(self), pos(self), saved_row(self)
+//@   modifies depth(self), pos(self), saved_row(self), curFrom(self), curTo(self), curErr(self)
 //@   ensures depth(self) == old(depth(self)) - 1 && pos(self) == old(saved(self, depth(self) - 1)) && savedKept(self, depth(self)) && linv(self)
 //
 // Every Parser keeps the transaction discipline: it returns with the snapshot stack exactly as it
@@ -62,7 +69,7 @@ package combinator
 //@ type Parser [C13,C06]
 //@   params self, input
 //@   requires linv(input)
-//@   modifies pos(input), cached(input), depth(input), saved_row(input), allelems([]Node{})
+//@   modifies pos(input), cached(input), depth(input), saved_row(input), curFrom(input), curTo(input), curErr(input), allelems([]Node{})
 //@   ensures[balanced] linv(input) && depth(input) == old(depth(input)) && savedKept(input, depth(input)) && cached(input) >= old(cached(input))
 //@   ensures[total]    total(self) ==> result1 == nil
 //@ pred notTotal(self Parser) bool := !total(self)
@@ -130,6 +137,9 @@ package combinator
 //@ func Accept$1 [C13,C06] implements Parser
 //@   requires[not_total] !total(self)   // only parsers built by Ok() are marked total
 //@   ensures[one_token] pos(input) == old(pos(input)) + 1 || pos(input) == old(pos(input))
+// C06: when the input ends or the scanner reports an error, the parser's error carries exactly the
+// span the lexer reports for it (a span inside the input, by the scanner's contract).
+//@   ensures[lexer_error_span;C06] result1 != nil && (pos(input) == old(pos(input)) || curErr(input)) ==> result1.from == curFrom(input) && result1.to == curTo(input)
 //
 //@ func Fmap$1 [C13,C06] implements Parser
 //@   requires[not_total] !total(self)   // only parsers built by Ok() are marked total
